@@ -108,6 +108,8 @@ def run_encrypt(ctx, tr, d, key: bytes, keyname, size, seed, kid, halg, via, k, 
     if k % 4 == 1 and size:   # a firmware whose first and last byte are NUL / whitespace / 0xFF
         e_ = (0x00, 0x09, 0x0A, 0x0D, 0x20, 0xFF)
         pt = bytes([e_[(k // 4) % 6]]) + pt[1:-1] + (bytes([e_[(k // 24) % 6]]) if size > 1 else b"")
+    if k % 4 == 3 and size:   # a firmware made of characters only (hex digits, digits, base64)
+        pt = envgen.textlike(size, seed)
     fw.write_bytes(pt)
     core.through_link(fw, (k * 3 + k // 5) % 5 == 2)
     fw = core.through_dotdot(fw, k % 7 == 3)
@@ -220,10 +222,11 @@ def setup_stores(d):
 
 def run_geninfo(ctx, tr, d, size, seed, kid, via, k):
     es, _ = scripts()
-    blob = envgen.blob(28 + size, seed)
+    # every fourth blob / wrapped key consists of characters only (hex digits, decimal digits, base64): still a binary file
+    blob = envgen.textlike(28 + size, seed) if k % 4 == 1 else envgen.blob(28 + size, seed)
     bf, kf = d / f"blob{k}.bin", d / f"cek{k}.bin"
     bf.write_bytes(blob)
-    cek = b"" if k % 2 else envgen.blob(40, seed + 1)
+    cek = b"" if k % 2 else envgen.textlike(40, seed + 1) if k % 4 == 2 else envgen.blob(40, seed + 1)
     kf.write_bytes(cek)
     out = d / f"gout{k}"
     out.mkdir()
